@@ -334,6 +334,7 @@ func init() {
 		errRulesFor(run, p, "primitives/ed25519/extra/ecvrf")
 		arithmeticFoundations(c)
 		groupFoundations(c, true)
+		ownershipRules(c) // keys, proofs and alpha are not modified or kept
 		readFullRule(c)
 	}
 }
